@@ -40,7 +40,7 @@ CHECKS = {
     "C19": {
         "level": "fault_enumeration",
         "legs": [("reject", "C19")],
-        "quick": {"runs": 224, "wall": 60},
+        "quick": {"runs": 512, "wall": 60},
         "thorough": {"runs": 20000, "wall": 1800},
         "selftest_runs": 96,
     },
